@@ -159,7 +159,7 @@ class Box:
 PARAMS = ['a', 'b', 'nope', 'zz', '_private', 'A', 'self', 'this', '_cls']
 SCOPES = ['', 's']
 PATHS = ['str', 'tuple', 'list', 'pbk', 'text', 'block', 'files_and_bindings', 'hook', 'hook_tuple', 'tuple4',
-         'list4', 'hook_tuple4']
+         'list4', 'hook_tuple4', 'hook_after_valid_key']
 
 
 def bound(tier):
@@ -223,6 +223,10 @@ def attempt(path, scope, sel, param, value):
     gin.parse_config('%s%s:\n  %s = %r\n' % (scope + '/' if scope else '', sel, param, value))
   elif path == 'files_and_bindings':
     gin.parse_config_files_and_bindings(None, ['%s = %r' % (key, value)], finalize_config=False)
+  elif path == 'hook_after_valid_key':
+    # one hook returns a valid binding first and the key under test second: a rejection must leave nothing behind
+    gin.config.register_finalize_hook(lambda config: dict([('c11.pre_fn.y', 'SET_BY_HOOK'), (key, value)]))
+    gin.finalize()
   elif path in ('hook', 'hook_tuple'):
     k = key if path == 'hook' else (scope, sel, param)
     gin.config.register_finalize_hook(lambda config: {k: value})
@@ -255,6 +259,12 @@ def run_case(case, res):
   gin.parse_config("c11.pre_fn.x = 'pre'\ns/c11.pre_fn.x = 'pres'\nc11.pre_fn.y = [1, 2]")
   ok, why = accepts(tname, spelling, param)
   res.case(tuple(case), (not ok) or (tname or '').startswith('vk'))
+  # History: a call that named this very parameter with gin.REQUIRED has already failed (nothing is bound yet).
+  if tname is not None:
+    try:
+      TARGETS[tname]['call'](**{param: gin.REQUIRED})
+    except Exception:  # pylint: disable=broad-except
+      pass
   before = observe(tname)
   val = 'VAL'
   try:
